@@ -22,7 +22,7 @@ fn default_opt() -> Opt {
     Opt { opaque: true, wildcard: false, from_impls: false, no_std: false, custom: vec![], annotations: vec![DEFAULT_ANN.into()] }
 }
 
-const FIXED: [(&str, &str); 22] = [
+const FIXED: [(&str, &str); 27] = [
     ("recursion-direct", "Rec ::= SEQUENCE { next Rec OPTIONAL, v INTEGER }"),
     ("recursion-choice", "Tree ::= CHOICE { leaf INTEGER, node SEQUENCE { l Tree, r Tree } }"),
     ("recursion-mutual", "Ra ::= SEQUENCE { b Rb OPTIONAL }\nRb ::= SEQUENCE { a Ra, n NULL }"),
@@ -40,6 +40,12 @@ const FIXED: [(&str, &str); 22] = [
     ("values-cross-reference", "a1 INTEGER ::= 4\na2 INTEGER ::= a1\nSm ::= INTEGER (0..255)\na3 Sm ::= a1\nRg ::= INTEGER (a1..a2 | 100)"),
     ("bit-string-named", "Bn ::= BIT STRING { first(0), second(1) } (SIZE (2))\nbv Bn ::= { first }\nBs ::= SEQUENCE { f Bn DEFAULT { second } }"),
     ("integer-named", "In ::= INTEGER { one(1), two(2) } (1..2)\niv In ::= two\nIs ::= SEQUENCE { f In DEFAULT one }"),
+    // the same through one and two alias steps: the DEFAULT / value is wrapped once per newtype on the way
+    ("alias-named-number-default", "Nn ::= INTEGER { one(1), nine(9) }\nNa ::= Nn\nNb ::= Na\nDa ::= SEQUENCE { a [0] Na DEFAULT nine, b [1] Nb DEFAULT one }"),
+    ("alias-number-default", "Nn ::= INTEGER { one(1), nine(9) }\nNa ::= Nn\nSs ::= INTEGER (0..255)\nSa ::= Ss\nSb ::= Sa\nDb ::= SEQUENCE { a [0] Na DEFAULT 3, b [1] Sa DEFAULT 7, c [2] Sb DEFAULT 8 }"),
+    ("alias-enumerated-default", "Ee ::= ENUMERATED { p, q }\nEa ::= Ee\nEb ::= Ea\nDc ::= SEQUENCE { a [0] Ea DEFAULT q, b [1] Eb DEFAULT p }"),
+    ("alias-values", "Nn ::= INTEGER { one(1), nine(9) }\nNa ::= Nn\nNb ::= Na\nEe ::= ENUMERATED { p, q }\nEa ::= Ee\nva Na ::= nine\nvb Nb ::= 4\nvc Ea ::= p\nvd Nb ::= one"),
+    ("alias-boolean-string-default", "Bo ::= BOOLEAN\nBa ::= Bo\nSt ::= UTF8String\nSa ::= St\nDd ::= SEQUENCE { a [0] Ba DEFAULT TRUE, b [1] Sa DEFAULT \"x\" }"),
     ("nested-depth-4", "Dp ::= SEQUENCE { l1 SEQUENCE { l2 CHOICE { l3 SEQUENCE OF SEQUENCE { l4 ENUMERATED { a, b }, k SET { m INTEGER } } } } }"),
     ("set-and-set-of", "St ::= SET { a [0] INTEGER, b [1] BOOLEAN OPTIONAL, ... , c [2] NULL }\nSo ::= SET (SIZE (1..4)) OF St"),
     ("extension-groups", "Eg ::= SEQUENCE { a INTEGER, ..., [[ 2: b BOOLEAN, c NULL OPTIONAL ]], d UTF8String OPTIONAL }"),
